@@ -10,15 +10,38 @@ import (
 )
 
 func main() {
+	type B = vsched.Bound
+	// harness 2 (endpoint pool): scenarios without environment choices (no dial/write fault menu, janitor stopped)
+	// have an empty deviation dimension, so {p,1} there is {p,0}.
+	epSmallQ := []B{{0, 0}, {1, 1}, {2, 1}}
+	epSmallT := []B{{0, 0}, {1, 1}, {2, 1}, {3, 1}}
 	p := &vdrive.Plan{
 		Scenarios:      append(control.VerifTaskPoolScenarios(), control.VerifEndpointPoolScenarios()...),
-		QuickBounds:    []vsched.Bound{{0, 0}, {1, 1}, {2, 1}},
-		ThoroughBounds: []vsched.Bound{{0, 0}, {1, 1}, {2, 1}, {2, 2}, {3, 2}},
-		PerScenario: map[string]map[string][]vsched.Bound{
+		QuickBounds:    []B{{0, 0}, {1, 1}, {2, 1}},
+		ThoroughBounds: []B{{0, 0}, {1, 1}, {2, 1}, {2, 2}, {3, 2}},
+		PerScenario: map[string]map[string][]B{
 			"tp-overflow":    {"quick": {{0, 0}, {1, 0}, {1, 1}}, "thorough": {{0, 0}, {1, 1}, {2, 1}, {2, 2}}},
 			"tp-2keys-3prod": {"quick": {{0, 0}, {1, 0}, {2, 0}}, "thorough": {{0, 0}, {2, 0}, {1, 1}, {2, 1}}},
+
+			"ep-3goc-dial":               {"quick": {{0, 0}, {0, 2}, {1, 1}}, "thorough": {{0, 0}, {0, 2}, {1, 1}, {1, 2}, {2, 1}}},
+			"ep-2goc-seq-dial":           {"quick": {{0, 0}, {1, 1}, {1, 2}, {2, 1}}, "thorough": {{0, 0}, {1, 2}, {2, 2}, {3, 2}}},
+			"ep-goc-vs-readerr":          {"quick": epSmallQ, "thorough": epSmallT},
+			"ep-goc-vs-writeerr":         {"quick": {{0, 0}, {1, 1}, {1, 2}, {2, 1}}, "thorough": {{0, 0}, {1, 2}, {2, 2}, {3, 2}}},
+			"ep-goc-vs-invalidate-fresh": {"quick": epSmallQ, "thorough": epSmallT},
+			"ep-goc-vs-invalidate-used":  {"quick": {{0, 0}, {1, 1}, {2, 1}, {3, 1}}, "thorough": {{0, 0}, {2, 1}, {3, 1}, {4, 1}}},
+			"ep-create-vs-invalidate":    {"quick": epSmallQ, "thorough": epSmallT},
+			"ep-goc-vs-janitor":          {"quick": {{0, 0}, {1, 0}, {0, 1}, {2, 0}}, "thorough": {{0, 0}, {2, 0}, {1, 1}, {2, 1}}},
+			// the unchanged tree violates the statement in this scenario with 2 preemptions (pool Reset racing with an
+			// endpoint creation orphans the new endpoint from later health invalidations, see the report):
+			// quick stays below that depth, thorough reaches it.
+			"ep-goc-vs-reset":           {"quick": {{0, 0}, {1, 1}}, "thorough": epSmallT},
+			"ep-goc-vs-close":           {"quick": epSmallQ, "thorough": epSmallT},
+			"ep-goc-vs-remove":          {"quick": epSmallQ, "thorough": epSmallT},
+			"ep-adopt-shared-tuple":     {"quick": epSmallQ, "thorough": epSmallT},
+			"ep-adopt-vs-readerr":       {"quick": epSmallQ, "thorough": epSmallT},
+			"ep-adopt-distinct-tracker": {"quick": epSmallQ, "thorough": epSmallT},
 		},
-		BudgetQuick:    100 * time.Second,
+		BudgetQuick:    170 * time.Second,
 		BudgetThorough: 20 * time.Minute,
 	}
 	vdrive.Main("C13", p)
